@@ -122,7 +122,7 @@ pub fn parsegen(prop: &str, seed: u64, runs: usize) -> Vec<J> {
         "C09" => {
             // inputs that used to panic, degenerate texts
             for t in [
-                "A B\n0 0 C\n", "A\n(1 ! 2)\n", "A\nlet a = 1 ~ 2;\n1\n", "A\nprogram(1)\n", "A\ninit x;\n", "A\nmemory m;\n", "A\ndef f\n", "A\ncall f\n", "", " ", "\n", "\n\n\n", "A", "A B", "A\n",
+                "A B\n0 0 C\n", "A\n(1 ! 2)\n", "A\nlet a = 1 ~ 2;\n1\n", "A\nprogram(1)\n", "A\nprogram", "A\nprogram ", "A\n1\ninit", "A\nloop(i,1)\nmemory", "A\ndef f", "A\ncall", "A\ninit x;\n", "A\nmemory m;\n", "A\ndef f\n", "A\ncall f\n", "", " ", "\n", "\n\n\n", "A", "A B", "A\n",
                 "A\r\n", "A A\n", "A\n(", "A\n(1", "A\nbits(", "A\nbits(1", "A\nbits(1,", "A\nloop(", "A\nloop(i", "A\nloop(i,", "A\nloop(i,1", "A\nloop(i,1)", "A\nloop(i,1)\n", "A\nrepeat(",
                 "A\nrepeat(1)", "A\nwhile(1)\n", "A\nend", "A\nend loop", "A\nlet", "A\nlet a", "A\nlet a =", "A\nlet a = 1", "A\ndeclare", "A\ndeclare a = 1;", "A\nrandom(", "A\n(random(1", "A\n(ite(1,2", "é\n1\n",
                 "A\n(é)\n", "A\n1 é\n", "A\n\u{1F600}\n", "A\n(a\u{0663})\n", "A\n0 C C C\n", "A\nC\nC C\n", "A\nbits(99999999999999999999,1)\n", "A B\nbits(2,3) C\n", "A B C\nbits(3,1) C C\n", "A B\n1 bits(2,1) C\n", "A\nbits(0,1) 1 C\n", "A B\nbits(257,5) 1\n", "A\nbits(256,5) 1\n", "A\n(99999999999999999999)\n", "A\n#\n", "#A\n1\n",
@@ -164,6 +164,10 @@ pub fn parsegen(prop: &str, seed: u64, runs: usize) -> Vec<J> {
             }
         }
         "C12" => {
+            // a header that is not followed by a line break
+            for t in ["A", "A B", "\n\nA B Q", " A\tB ", "A B\r", "é x"] {
+                push(&mut out, prop, t, None, 0, "header without line break");
+            }
             for run in 0..runs {
                 let s: u64 = top.gen();
                 let mut rng = StdRng::seed_from_u64(s);
